@@ -60,6 +60,61 @@ Section DoEnergy.
     im_do_energy_asis RA m muo b1 b2 = im_do_energy_intended RA m muo b1 b2.
   Proof. intros H. unfold im_do_energy_asis, im_do_energy_intended. rewrite H. reflexivity. Qed.
 
+  (* the repaired text (variant true; /repo fcf383d): laminations on edge store, per direction, the energy of that
+     direction's own flux density component - parallel mixing of the permeabilities along the sheets, series mixing
+     of the reluctivities across them *)
+  Theorem do_energy_lam1_repaired (m : im_mat) muo b1 b2 : im_lamtype m = 1%nat ->
+    im_do_energy RA true m muo b1 b2
+    = (b1 * b1 / ((1 + im_lamfill m * (im_mux m - 1)) * muo)
+       + b2 * b2 * (im_lamfill m / (im_muy m * muo) + (1 - im_lamfill m) / muo)) / 2.
+  Proof.
+    intros H. unfold im_do_energy, im_do_energy_intended. rewrite H. ra_simpl. unfold Rdiv; ring.
+  Qed.
+
+  Theorem do_energy_lam2_repaired (m : im_mat) muo b1 b2 : im_lamtype m = 2%nat ->
+    im_do_energy RA true m muo b1 b2
+    = (b1 * b1 * (im_lamfill m / (im_mux m * muo) + (1 - im_lamfill m) / muo)
+       + b2 * b2 / ((1 + im_lamfill m * (im_muy m - 1)) * muo)) / 2.
+  Proof.
+    intros H. unfold im_do_energy, im_do_energy_intended. rewrite H. ra_simpl. unfold Rdiv; ring.
+  Qed.
+
+  (* ... and that energy is positive for every non-zero flux density (physical materials, fill in (0,1]) *)
+  Theorem do_energy_repaired_positive (m : im_mat) muo b1 b2 :
+    (im_lamtype m <= 2)%nat -> 0 < muo -> 1 <= im_mux m -> 1 <= im_muy m -> 0 < im_lamfill m <= 1 -> (b1, b2) <> (0, 0) ->
+    0 < im_do_energy RA true m muo b1 b2.
+  Proof.
+    intros Hl Hmu Hx Hy [Ht0 Ht1] Hb.
+    assert (Hsq : 0 < b1 * b1 + b2 * b2).
+    { destruct (Req_dec b1 0) as [E1|N1]; destruct (Req_dec b2 0) as [E2|N2]; subst; try (exfalso; apply Hb; reflexivity); nra. }
+    assert (Hpx : 0 < (1 + im_lamfill m * (im_mux m - 1)) * muo).
+    { assert (0 <= im_lamfill m * (im_mux m - 1)) by (apply Rmult_le_pos; lra). apply Rmult_lt_0_compat; lra. }
+    assert (Hpy : 0 < (1 + im_lamfill m * (im_muy m - 1)) * muo).
+    { assert (0 <= im_lamfill m * (im_muy m - 1)) by (apply Rmult_le_pos; lra). apply Rmult_lt_0_compat; lra. }
+    assert (Hsx : 0 < im_lamfill m / (im_mux m * muo) + (1 - im_lamfill m) / muo).
+    { assert (0 < im_lamfill m / (im_mux m * muo)) by (apply Rdiv_lt_0_compat; [lra | apply Rmult_lt_0_compat; lra]).
+      assert (0 <= (1 - im_lamfill m) / muo) by (unfold Rdiv; apply Rmult_le_pos; [lra | left; apply Rinv_0_lt_compat; lra]). lra. }
+    assert (Hsy : 0 < im_lamfill m / (im_muy m * muo) + (1 - im_lamfill m) / muo).
+    { assert (0 < im_lamfill m / (im_muy m * muo)) by (apply Rdiv_lt_0_compat; [lra | apply Rmult_lt_0_compat; lra]).
+      assert (0 <= (1 - im_lamfill m) / muo) by (unfold Rdiv; apply Rmult_le_pos; [lra | left; apply Rinv_0_lt_compat; lra]). lra. }
+    assert (Hix : 0 < / ((1 + im_lamfill m * (im_mux m - 1)) * muo)) by (apply Rinv_0_lt_compat; exact Hpx).
+    assert (Hiy : 0 < / ((1 + im_lamfill m * (im_muy m - 1)) * muo)) by (apply Rinv_0_lt_compat; exact Hpy).
+    assert (Q1 : 0 <= b1 * b1) by nra. assert (Q2 : 0 <= b2 * b2) by nra.
+    assert (POS : forall p q, 0 < p -> 0 < q -> 0 < (b1 * b1 * p + b2 * b2 * q) * / 2).
+    { intros p q Hp Hq.
+      assert (0 <= b1 * b1 * p) by (apply Rmult_le_pos; lra).
+      assert (0 <= b2 * b2 * q) by (apply Rmult_le_pos; lra).
+      assert (0 < b1 * b1 * p + b2 * b2 * q).
+      { destruct (Rle_lt_or_eq_dec _ _ Q1) as [L|L].
+        - assert (0 < b1 * b1 * p) by (apply Rmult_lt_0_compat; lra). lra.
+        - assert (0 < b2 * b2) by lra. assert (0 < b2 * b2 * q) by (apply Rmult_lt_0_compat; lra). lra. }
+      lra. }
+    destruct (im_lamtype m) as [|[|[|k]]] eqn:E; [| | |lia].
+    - rewrite (do_energy_lam0 true m muo b1 b2 E). unfold Rdiv. apply POS; assumption.
+    - rewrite (do_energy_lam1_repaired m muo b1 b2 E). unfold Rdiv. apply POS; assumption.
+    - rewrite (do_energy_lam2_repaired m muo b1 b2 E). unfold Rdiv. apply POS; assumption.
+  Qed.
+
   (* laminations stacked on edge (LamType 1 and 2): the hard-direction field intensity is computed
      from b1 where b2 is meant (CMaterialProp.cpp:621 and 625-626); the energy density then
      vanishes for a flux density along y and depends on the product b1 b2 *)
